@@ -262,6 +262,50 @@ theorem barrier_counts (conns : List Conn) (h0 : ∀ c ∈ conns, c.pc = 0) (sch
   intro c hc
   rcases hb c hc with h | h | h <;> simp [Conn.counted, Conn.isOpen, h]
 
+
+/-! ### one `Forward` call: every way it can end leaves the counters as it found them -/
+
+/-- whatever the end of a `Forward` call — no route, every dial failed, the flush of the buffered bytes failed after a
+    successful dial, or a forwarded connection that was eventually closed — after it has returned
+    `ActiveConnections()` and every backend's counter are exactly what they were before the call. -/
+theorem forward_restores_counts (s : SState) (key : Addr → Bytes) (e : FwdEnd) :
+    (forwardAfter {} s key e).active = s.active ∧ (forwardAfter {} s key e).counters = s.counters := by
+  cases e <;> simp [forwardAfter, trackClose, trackOpen]
+
+/-- so after any history of completed calls, with any mix of outcomes, the counts are back where they started
+    (zero from a fresh manager) -/
+theorem forward_history_restores_counts (s : SState) (key : Addr → Bytes) (calls : List FwdEnd) :
+    (calls.foldl (fun st e => forwardAfter {} st key e) s).active = s.active ∧
+    (calls.foldl (fun st e => forwardAfter {} st key e) s).counters = s.counters := by
+  induction calls generalizing s with
+  | nil => exact ⟨rfl, rfl⟩
+  | cons e t ih =>
+    obtain ⟨h1, h2⟩ := forward_restores_counts s key e
+    obtain ⟨i1, i2⟩ := ih (forwardAfter {} s key e)
+    exact ⟨i1.trans h1, i2.trans h2⟩
+
+/-- while a call is in progress it is counted iff it is a forwarded (piping) connection -/
+theorem forward_counted_iff_piping (s : SState) (key : Addr → Bytes) (e : FwdEnd) :
+    activeConnections (forwardDuring {} s key e) =
+      activeConnections s + (match e with | .piped _ => 1 | _ => 0) := by
+  cases e <;> simp [forwardDuring, activeConnections, trackOpen]
+
+/-- the defective class (tracking before the flush, release deferred only after it): a connection whose flush fails
+    stays counted for ever -/
+theorem forward_leak_fails :
+    ¬ (∀ (s : SState) (key : Addr → Bytes) (e : FwdEnd),
+        (forwardAfter { trackBeforeFlush := true } s key e).active = s.active) := by
+  intro h
+  have := h {} (fun b => b) (.flushFailed [97])
+  revert this; decide
+
+/-- … and is correct for every other ending -/
+theorem forward_leak_partial (s : SState) (key : Addr → Bytes) (e : FwdEnd) (h : ∀ b, e ≠ .flushFailed b) :
+    forwardAfter { trackBeforeFlush := true } s key e = forwardAfter {} s key e := by
+  cases e with
+  | flushFailed b => exact absurd rfl (h b)
+  | _ => rfl
+
 /-! ### round-robin index under concurrency -/
 
 /-- picks as single atomic sections, in any order: (thread, index handed out) list and the final index -/
@@ -337,7 +381,9 @@ theorem src_counter_lock_regions :
       "sm.connectionCounters.CompareAndDelete", "}", "return"] ∧
     activeConnectionsCalls = ["sm.activeConnectionsMu.RLock", "defer:sm.activeConnectionsMu.RUnlock", "return"] ∧
     before "strategyManager.TrackConnection" "defer:decrementConnection" forwardCalls ∧
-    before "defer:decrementConnection" "pipe" forwardCalls := by decide
+    before "defer:decrementConnection" "pipe" forwardCalls ∧
+    -- the release is deferred immediately after the connection is counted: no return can lie between them
+    forwardCalls.idxOf "defer:decrementConnection" = forwardCalls.idxOf "strategyManager.TrackConnection" + 1 := by decide
 
 open Gate.Gen.C30 in
 /-- the shared random source is only used between `rngMu.Lock` and `rngMu.Unlock` -/
